@@ -46,13 +46,8 @@ def arith (v : String) (seed : UInt64) : Arith :=
   else if v = "N" then { red := redN seed, sq := fun x => x * x }
   else Arith.ltr
 
-/-- array-backed copy of the first `n` components -/
-def storeF (n : Nat) (f : Nat → Float) : Nat → Float :=
-  let a : FV := Array.ofFn (n := n) fun i => f i.val
-  fun i => a.getD i 0.0
-
 def numOf (A : Arith) : TrsLin.Num Float :=
-  { sum := fun n f => A.red ((List.range n).map f), sqrt := Float.sqrt, sq := A.sq, zt := 1.0e-14, store := storeF }
+  { sum := fun n f => A.red ((List.range n).map f), sqrt := Float.sqrt, sq := A.sq, zt := 1.0e-14 }
 
 def showFV (v : FV) : String := showFloats v.toList
 
@@ -92,8 +87,8 @@ def handle (ts : List String) : String :=
         let (b, rest) ← takeF n rest
         let (dl, rest) ← takeF 1 rest
         if rest ≠ [] then none else
-        let x := TrsLin.trsboxLinearV (numOf (arith v seed.toUInt64)) n (fnOf g) (fnOf a) (fnOf b) (dl.getD 0 0.0)
-        some (vmap2 n x.f)
+        let x := TrsLin.trsboxLinear (numOf (arith v seed.toUInt64)) n (fnOf g) (fnOf a) (fnOf b) (dl.getD 0 0.0)
+        some x
       match r with
       | some x => s!"ok x={showFV x}"
       | none => "bad-op"
@@ -109,8 +104,8 @@ def handle (ts : List String) : String :=
         let (up, rest) ← takeF n rest
         let (dl, rest) ← takeF 1 rest
         if rest ≠ [] then none else
-        let x := TrsLin.trsboxGeometryV (numOf (arith v seed.toUInt64)) n (fnOf xbase) (c.getD 0 0.0) (fnOf g) (fnOf lo) (fnOf up) (dl.getD 0 0.0)
-        some (vmap2 n x.f)
+        let x := TrsLin.trsboxGeometry (numOf (arith v seed.toUInt64)) n (fnOf xbase) (c.getD 0 0.0) (fnOf g) (fnOf lo) (fnOf up) (dl.getD 0 0.0)
+        some x
       match r with
       | some x => s!"ok x={showFV x}"
       | none => "bad-op"
